@@ -625,9 +625,13 @@ pub(crate) fn gen_updater(
                         if let Some(#field_name) = #field_name.as_mut() {
                             #updater
                         } else {
-                            *#field_name = Some(<#inner_type as clap::FromArgMatches>::from_arg_matches_mut(
-                                #arg_matches
-                            )?);
+                            let group_id = <#inner_type as clap::Args>::group_id()
+                                .expect("asserted during `Arg` creation");
+                            if #arg_matches.contains_id(group_id.as_str()) {
+                                *#field_name = Some(<#inner_type as clap::FromArgMatches>::from_arg_matches_mut(
+                                    #arg_matches
+                                )?);
+                            }
                         }
                     },
                     _ => quote_spanned! { kind.span()=>
